@@ -24,35 +24,35 @@ type Obligation struct {
 	Func     string
 
 	// results
-	Result  string // unsat | sat | unknown | timeout | error
-	Backend string
-	Ms      int64
-	Model   string
-	Query   string
-	ModelQuery string // the query the model was obtained from
-	Candidate  bool   // model found after dropping quantified assumptions
+	Result     string // unsat | sat | unknown | timeout | error
+	Backend    string
+	Ms         int64
+	Model      string
+	Query      string
+	ModelQuery string            // the query the model was obtained from
+	Candidate  bool              // model found after dropping quantified assumptions
 	StrLits    map[string]string // string-literal symbol -> text (for replay)
 }
 
 type CoverPoint struct {
-	Guard    string
-	NAssumes int
+	Guard      string
+	NAssumes   int
 	PreAssumes int // assumptions visible before the call
-	What     string
+	What       string
 }
 
 type VC struct {
-	Covers   []CoverPoint
-	FuncName string
-	decls    []string
-	declSet  map[string]bool
-	defs     []string // definitional facts (always included)
-	assumes  []Assume
-	Obls     []*Obligation
-	fresh    int
-	strLits  map[string]string // literal -> symbol
-	strOrder []string
-	Abstracted []string // notes: what the translation abstracts for this function
+	Covers       []CoverPoint
+	FuncName     string
+	decls        []string
+	declSet      map[string]bool
+	defs         []string // definitional facts (always included)
+	assumes      []Assume
+	Obls         []*Obligation
+	fresh        int
+	strLits      map[string]string // literal -> symbol
+	strOrder     []string
+	Abstracted   []string // notes: what the translation abstracts for this function
 	heapVarSorts map[string]Sort
 	constVars    map[string]bool // heap variables of fields declared const: never havocked by frames
 	axioms       []axiomDef
@@ -324,13 +324,13 @@ func (vc *VC) CoverQuery(guard string, nAssumes int) string {
 
 // Heap is a persistent (immutable) versioned store from heap-variable names to terms.
 type Heap struct {
-	id      int
-	vals    map[string]string
-	parents []heapEdge
-	havoc   bool            // true: unknown variables are fresh (entry state or havoc-all)
+	id       int
+	vals     map[string]string
+	parents  []heapEdge
+	havoc    bool            // true: unknown variables are fresh (entry state or havoc-all)
 	havocSet map[string]bool // variables that are fresh at this node (others come from the parent)
 	keepSet  map[string]bool // for havoc-all nodes: variables that keep the parent's value
-	vc      *VC
+	vc       *VC
 }
 
 type heapEdge struct {
